@@ -144,7 +144,8 @@ def node(depth, mode, max_depth=4, allow_pbar=False, allow_cast=True, extra=None
                   st.one_of(st.none(), st.none(), st.integers(1, 60)) if mode == "any" else st.none(), st.sampled_from([None, None, "left", "center", "right", "full"]),
                   title_opts() if mode == "any" else st.none()),
         st.builds(lambda c, p, ex: {"k": "padding", "child": c, "pad": p, "expand": ex}, line_child, pad_strategy(), st.booleans()),
-        st.builds(lambda c, a, p, w: {"k": "align", "child": c, "align": a, "pad": p, "width": w}, child, st.sampled_from(["left", "center", "right"]), st.booleans(), st.one_of(st.none(), st.integers(1, 60)) if mode == "any" else st.none()),
+        st.builds(lambda c, a, p, w: {"k": "align", "child": c, "align": a, "pad": p, "width": w}, child, st.sampled_from(["left", "center", "right"]), st.booleans(),
+                  st.one_of(st.none(), st.integers(1, 60)) if mode == "any" else st.one_of(st.none(), st.none(), st.integers(20, 90))),  # Align(width=) restricts its child and never exceeds what is available
         st.builds(lambda c, w: {"k": "constrain", "child": c, "width": w}, child, st.one_of(st.none(), st.integers(1, 80)) if mode == "any" else st.none()),
         st.builds(lambda c: {"k": "styled", "child": c, "style": "bold on blue"}, child),
         st.builds(lambda items, eq, ex, cf, rtl, al, p, t, w: {"k": "columns", "items": items, "equal": eq, "expand": ex, "column_first": cf, "right_to_left": rtl, "align": al, "padding": p, "title": t, "width": w},
